@@ -428,13 +428,20 @@ def splice(toks, body, spec):
         if text.strip():
             inserts.append((loop_heads[k - 1], _chunk(text)))
     for prefix, text in spec['before']:
+        # `#N rest`: the N-th statement (in text order) starting with `rest`
+        nth = 1
+        m_ = re.match(r'#(\d+)\s+(.*)$', prefix)
+        if m_:
+            nth, prefix = int(m_.group(1)), m_.group(2)
         ptoks = [x[1] for x in lex(prefix)]
         pos = None
         for j in range(body + 1, len(out) - len(ptoks) + 1):
             prev = out[j - 1].text
             if prev in (';', '{', '}') and [x.text for x in out[j:j + len(ptoks)]] == ptoks:
-                pos = j
-                break
+                nth -= 1
+                if nth == 0:
+                    pos = j
+                    break
         if pos is None:
             raise ExtractError('contract anchor lost: no statement starts with %r' % prefix)
         inserts.append((pos, _chunk(text)))
